@@ -1450,6 +1450,34 @@ static void runBvls(const Case &c) {
   delete d;
 }
 
+// The saved image of a block dictionary with the counters it must carry; parsed by the model loader in the
+// Lean driver (`bichk`).
+static void runBlocksImg(const Case &c) {
+  size_t len = 0;
+  uchar *buf = plain(c.strs, len, 1);
+  auto *it = new IteratorDictStringPlain(buf, len);
+  StringDictionaryHASHRPDACBlocks *d = new StringDictionaryHASHRPDACBlocks(it, len, (int)c.geti("ov", 25), (unsigned long)c.geti("cut", 64), (int)c.geti("thr", 2));
+  for (auto &op : c.ops) {
+    g_op++;
+    if (op[0] == "reload") {
+      std::stringstream ss(std::ios::in | std::ios::out | std::ios::binary);
+      d->save(ss);
+      StringDictionary *d2 = StringDictionaryHASHRPDACBlocks::load(ss);
+      delete d; d = (StringDictionaryHASHRPDACBlocks *)d2;
+      emit("RQ reloaded");
+    } else if (op[0] == "bi") {
+      string firsts, starts, pel;
+      for (size_t i = 0; i < d->cut_samples.size(); i++) firsts += (i ? "," : "") + (d->cut_samples[i].empty() ? string("e") : hex(d->cut_samples[i]));
+      for (size_t i = 0; i < d->starting_indexes.size(); i++) starts += (i ? "," : "") + std::to_string(d->starting_indexes[i]);
+      for (size_t i = 0; i < d->parts.size(); i++) pel += (i ? "," : "") + std::to_string(d->parts[i]->numElements());
+      emit("BI img=%s ml=%u cs=%llu sq=%llu np=%zu firsts=%s starts=%s pel=%s", hex(saveImage(d)).c_str(), (uint)d->maxLength(),
+           (unsigned long long)d->cut_size, (unsigned long long)d->strings_qty, d->parts.size(), firsts.empty() ? "-" : firsts.c_str(),
+           starts.empty() ? "-" : starts.c_str(), pel.empty() ? "-" : pel.c_str());
+    } else emit("ERR unknown-op");
+  }
+  delete d;
+}
+
 // ---------------------------------------------------------------------------
 static void runCase(const Case &c) {
   if (c.stream == "dict") runDict(c);
@@ -1467,6 +1495,7 @@ static void runCase(const Case &c) {
   else if (c.stream == "fm") runFm(c);
   else if (c.stream == "rpfc") runRpfc(c);
   else if (c.stream == "bvls") runBvls(c);
+  else if (c.stream == "blkimg") runBlocksImg(c);
   else emit("ERR unknown-stream %s", c.stream.c_str());
 }
 
